@@ -269,6 +269,17 @@ def run(run):
 
     # known finding (suffix clash) is re-run through the oracle on every run
     run_sequence(run, secops.with_values([["append", "A:1"], ["append", "A"], ["append", "A"]]), False, "known-input")
+    # directed: a duplicate group is thinned by a delete, then a survivor is REPLACED through its stale session name
+    # (`params["RUN:2"] = HeaderItem("RUN")`), by an item of the same or of another name, then the name is added once more
+    for n in (2, 3):
+        for d in range(n):
+            for keep in range(1, n + 1):
+                if keep == d + 1:
+                    continue
+                for newname in ("A", "B", "a"):
+                    seq = [["append", "A"]] * n + [["del", d], ["setitem", "A:%d" % keep, newname], ["append", "A"]]
+                    for tr in (False, True):
+                        batch.append(run_sequence(run, secops.with_values(seq), tr, "stale-replace"))
     for seq, kind in secops.sequences(run, 2, 3, 2500, 30000):
         for tr in (False, True):
             batch.append(run_sequence(run, seq, tr, kind))
